@@ -206,6 +206,9 @@ def main():
         if "harness_error" in r:
             rep.harness_error("%s: %s" % (r.get("_job"), r["harness_error"]))
             continue
+        if r.get("timed_out"):
+            agg["inconclusive"] += 1
+            continue
         for k in ("obligations", "discharged", "inconclusive", "replayed", "no_encoding"):
             agg[k] += r.get(k, 0)
         st += r.get("solver_time", 0)
